@@ -61,6 +61,9 @@ var knownRules = map[string][][]string{
 	"assert-value-implements-ptr-methods":       {{"dyn-value-ptr-method"}},
 	"promotion-depth-first":                     {{"dfs-mismatch"}},
 	"methodset-flat-merge-signature":            {{"altsig-mixed"}},
+	"composed-wrapper-optional-promoted-next-to-host-embedding": {{"form:composed", "cw-extra:emb-src", "cw-base:emb-host-iface"},
+		{"form:composed", "cw-extra:emb-src", "cw-base:emb-host-ptr"}},
+	"composed-wrapper-own-optional-through-pointer": {{"form:composed", "cw-base:emb-host-iface", "cw-extra:own", "cw:pointer", "cw:reader"}},
 	"ambiguous-promoted-method-in-method-set":   {{"ambiguous-method"}},
 	"assert-empty-to-host-iface-indirect-method": {{"form:assertion", "assert:from-empty", "assert:to-host-iface", "dyn-indirect-method"},
 		{"iface:any-assert", "iface:host", "dyn-indirect-method"}},
